@@ -64,6 +64,15 @@ def many_cases(tier):
         yield "rn.many", {"n": n, "every": every, "suffix": suffix, "px": [[0, 0, 5], [0, n - 1, 2], [7, 9, 1], [n - 2, n - 1, 3]]}
 
 
+def big_cases(tier):
+    # more than a million bins, not a multiple of 10^6; the renamed chromosomes include the last one
+    for lens, ren in [([700001, 500000, 300002], [[1, "X"], [2, "the_last_one"]])] + \
+                     ([([1000000, 1000001], [[0, "q"], [1, "r"]]), ([2500003], [[0, "only"]])] if tier != "quick" else []):
+        total = sum(lens)
+        yield "rn.big", {"lens": lens, "names0": gen.CHROMNAMES[:len(lens)], "renames": ren,
+                         "px": [[0, 0, 5], [0, total - 1, 2], [lens[0], lens[0] + 1, 1], [total - 2, total - 1, 3]]}
+
+
 def run(tier, seed, only_case=None):
     r = Run("C18", tier, seed, replay=only_case is not None)
     r.rule = ("one case = (cooler on 1-3 chromosomes, fixed / variable / one-bin tables; chain of 1-3 partial injective renaming maps "
@@ -75,11 +84,11 @@ def run(tier, seed, only_case=None):
     r.assumptions = ["renaming maps are injective on the result (no two chromosomes get the same name)"]
     if only_case is None:
         r.model_check("MC_Cells", "MC_Cells.cfg")
-        cs = list(cases(tier, seed)) + list(many_cases(tier))
+        cs = list(big_cases(tier)) + list(cases(tier, seed)) + list(many_cases(tier))
     else:
         cs = [only_case]
     for drv, case, obs in run_cases(cs, chunk=4):
-        r.record(TRACE, drv, case, obs, drv == "rn.many" or len(case["renames"]) > 0)
+        r.record(TRACE, drv, case, obs, drv in ("rn.many", "rn.big") or len(case["renames"]) > 0)
     r.exhaustive = False
     r.validate(TRACE)
     return r.finish()
